@@ -38,6 +38,7 @@ pub proof fn lemma_addr_unique(a1: V2Addresses, a2: V2Addresses, f: u8, b: Seq<u
 /// an accepted header followed by any bytes is accepted with an identical result, the
 /// reported bytes on their own are accepted with an identical result, and exactly
 /// 16 + declared length bytes are reported
+#[verifier::rlimit(60)]
 pub proof fn lemma_c04_v2(h: Seq<u8>, t: Seq<u8>, r1: Result<V2Header, V2Error>, r2: Result<V2Header, V2Error>, r3: Result<V2Header, V2Error>)
     requires
         c02_post(h, r1), r1 is Ok,
@@ -118,6 +119,7 @@ pub proof fn lemma_c05_v2(h: Seq<u8>, k: int, r: Result<V2Header, V2Error>)
 // [props: C05]
 /// the prefix characterisation demands nothing beyond the property: every string it
 /// describes really is a proper prefix of some accepted header
+#[verifier::rlimit(60)]
 pub proof fn lemma_c05_v2_tight(s: Seq<u8>) -> (h: Seq<u8>)
     requires v2_proper_prefix_of_accepted(s)
     ensures v2_accepts(h), s.len() < v2_total(h), h.subrange(0, s.len() as int) =~= s
